@@ -202,6 +202,11 @@ def gamma(c, a, b):
             return r
     if c.k == "un" and c.a[0] == "not":
         return gamma(c.a[1], b, a)
+    # the same gate nested: the inner alternative that contradicts the outer choice is unreachable
+    if a.k == "gamma" and a.a[0] == c:
+        return gamma(c, a.a[1], b)
+    if b.k == "gamma" and b.a[0] == c:
+        return gamma(c, a, b.a[2])
     if a.k == "bcat" and b.k == "bcat":
         xa, xb = a.a[0], b.a[0]
         n = 0
@@ -476,16 +481,28 @@ def subterms(t, seen=None):
             stack.extend(x)
 
 
-def mapterm(f, t):
-    """bottom-up rebuild: f is applied to every rebuilt node; uses smart constructors"""
+def mapterm(f, t, _memo=None):
+    """bottom-up rebuild: f is applied to every rebuilt node; uses smart constructors.  Terms are DAGs:
+    shared sub-terms are rebuilt once (memo keyed by term)."""
+    if _memo is None:
+        _memo = {}
     if not isinstance(t, T):
         if isinstance(t, tuple):
-            return tuple(mapterm(f, x) for x in t)
+            return tuple(mapterm(f, x, _memo) for x in t)
         return t
+    r = _memo.get(t)
+    if r is not None:
+        return r
+    r = _mapterm(f, t, _memo)
+    _memo[t] = r
+    return r
+
+
+def _mapterm(f, t, _memo):
     k = t.k
     if k in ("const", "sym", "class", "func", "builtin", "exc", "lit"):
         return f(t)
-    a = tuple(mapterm(f, x) for x in t.a)
+    a = tuple(mapterm(f, x, _memo) for x in t.a)
     if k == "op":
         r = binop(a[0], a[1], a[2])
     elif k == "un":
